@@ -46,36 +46,117 @@ Proof. reflexivity. Qed.
 Lemma flat_app a b : flat (a ++ b) = flat a ++ flat b.
 Proof. unfold flat. rewrite map_app, concat_app. reflexivity. Qed.
 
-(* a record whose ciphertext length fits the 16-bit prefix: plaintext <= 65519 bytes *)
-Definition small (b : list (list frame)) : Prop := len (enc_contiguous b) <= NOISE_MAX_PT.
 
-(* ---------- drain ---------- *)
-Lemma drain_frames m fs : forall fuel, (length fs < fuel)%nat -> Forall (admitted m) fs ->
-  drain fuel m (concat (map enc_codec fs)) = (map RFrame fs, [], false).
+(* ---------- plaintext.chunks(65519) ---------- *)
+Definition okc (ch : bytes) : Prop := len ch <= NOISE_MAX_PT.
+
+Lemma CHUNK_pos : (0 < CHUNK)%nat.
+Proof. unfold CHUNK, NOISE_MAX_PT. lia. Qed.
+
+Lemma chunk_fuel_spec : forall f p, (length p <= f)%nat ->
+  concat (chunk_fuel f p) = p /\ Forall okc (chunk_fuel f p).
 Proof.
-  induction fs as [|f fs IH]; intros fuel Hf Ha.
-  - destruct fuel; [cbn in Hf; lia|]. reflexivity.
-  - destruct fuel as [|fuel]; [cbn in Hf; lia|]. inversion Ha; subst.
-    cbn [map concat drain]. rewrite dec_buffer_enc by assumption.
-    rewrite skipn_app, skipn_all, Nat.sub_diag. cbn [app skipn].
-    rewrite IH; [reflexivity | cbn [length] in Hf; lia | assumption].
+  induction f as [|f IH]; intros p Hl.
+  - destruct p; [split; [reflexivity | constructor] | cbn in Hl; lia].
+  - destruct p as [|x t]; [split; [reflexivity | constructor]|].
+    cbn [chunk_fuel]. pose proof CHUNK_pos as Hc.
+    destruct (IH (skipn CHUNK (x :: t))) as [H1 H2].
+    { rewrite skipn_length. lia. }
+    split.
+    + cbn [concat]. rewrite H1. apply firstn_skipn.
+    + constructor; [|exact H2]. unfold okc, len. rewrite firstn_length. unfold CHUNK. lia.
+Qed.
+Lemma chunks_concat p : concat (chunks p) = p.
+Proof. apply chunk_fuel_spec. unfold chunks. lia. Qed.
+Lemma chunks_okc p : Forall okc (chunks p).
+Proof. apply chunk_fuel_spec. unfold chunks. lia. Qed.
+Lemma chunks_nonempty p : p <> [] -> exists ch r, chunks p = ch :: r.
+Proof. destruct p as [|x t]; [congruence|]. intros _. unfold chunks. cbn [length chunk_fuel]. eauto. Qed.
+
+Lemma all_chunks_okc bs : Forall okc (all_chunks bs).
+Proof.
+  unfold all_chunks. induction bs as [|b bs IH]; [constructor|]. cbn [map concat].
+  apply Forall_app. split; [apply chunks_okc | exact IH].
+Qed.
+Lemma all_chunks_concat bs : concat (all_chunks bs) = concat (map enc_codec (flat bs)).
+Proof.
+  unfold all_chunks. induction bs as [|b bs IH]; [reflexivity|].
+  cbn [map concat]. rewrite concat_app, chunks_concat, IH, flat_cons, map_app, concat_app. reflexivity.
 Qed.
 
-Lemma enc_codec_len_pos f : (2 <= length (enc_codec f))%nat.
+(* ---------- the plaintext parser (Codec.buffer_step) over a growing decrypted buffer ---------- *)
+(* PR m x d fs: decoding the plaintext x yields exactly the frames fs, no error, leftover d *)
+Definition PR (m : Z) (x d : bytes) (fs : list frame) : Prop :=
+  Run (buffer_step m) false x false d (map Some fs).
+
+Lemma pump_failed m b : pump (buffer_step m) buffer_mu 1 true b = (true, b, []).
+Proof. apply (sk_Run_pump (buffer_ok m)). apply RunNeed. reflexivity. Qed.
+
+Lemma map_some_app_inv {A} (o1 o2 : list (option A)) : forall fs, o1 ++ o2 = map Some fs ->
+  exists f1 f2, o1 = map Some f1 /\ o2 = map Some f2 /\ fs = f1 ++ f2.
 Proof.
-  unfold enc_codec, enc_header_only, enc_header. destruct (_ <=? 255); cbn [length app]; rewrite ?app_length, ?be_bytes_length; lia.
+  induction o1 as [|x o1 IH]; intros fs H.
+  - exists [], fs. auto.
+  - destruct fs as [|f fs]; [discriminate|]. cbn [app map] in H. injection H as -> H.
+    destruct (IH _ H) as (f1 & f2 & -> & -> & ->). exists (f :: f1), f2. auto.
 Qed.
-Lemma concat_enc_len fs : (length fs <= length (concat (map enc_codec fs)))%nat.
+Lemma map_some_inj {A} (a : list A) : forall b, map Some a = map Some b -> a = b.
 Proof.
-  induction fs as [|f fs IH]; [reflexivity|]. cbn [map concat length]. rewrite app_length.
-  pose proof (enc_codec_len_pos f). lia.
+  induction a as [|x a IH]; intros [|y b] H; try discriminate; [reflexivity|].
+  cbn in H. injection H as -> H. f_equal. auto.
 Qed.
 
-Lemma drain_batch m b : Forall (admitted m) (concat b) ->
-  drain (S (length (enc_contiguous b))) m (enc_contiguous b) = (map RFrame (concat b), [], false).
+Lemma PR_pump m x d fs : PR m x d fs -> pump (buffer_step m) buffer_mu 1 false x = (false, d, map Some fs).
+Proof. apply (sk_Run_pump (buffer_ok m)). Qed.
+Lemma pump_PR m x d fs : pump (buffer_step m) buffer_mu 1 false x = (false, d, map Some fs) -> PR m x d fs.
 Proof.
-  intros Ha. unfold enc_contiguous. apply drain_frames; [|exact Ha].
-  pose proof (concat_enc_len (concat b)). lia.
+  intros H. pose proof (sk_pump_Run (buffer_ok m) false x) as HR. rewrite H in HR. exact HR.
+Qed.
+
+Lemma PR_split m b y r fs : PR m (b ++ y) r fs ->
+  exists r1 f1 f2, PR m b r1 f1 /\ fs = f1 ++ f2 /\
+                   pump (buffer_step m) buffer_mu 1 false (r1 ++ y) = (false, r, map Some f2).
+Proof.
+  intros H. apply PR_pump in H. rewrite (sk_pump_app (buffer_ok m)) in H.
+  pose proof (sk_pump_Run (buffer_ok m) false b) as HR.
+  destruct (pump (buffer_step m) buffer_mu 1 false b) as [[s1 r1] o1].
+  destruct s1.
+  - rewrite pump_failed in H. discriminate.
+  - destruct (pump (buffer_step m) buffer_mu 1 false (r1 ++ y)) as [[s2 r2] o2] eqn:E2.
+    injection H as -> -> H.
+    destruct (map_some_app_inv _ _ _ H) as (f1 & f2 & -> & -> & ->).
+    exists r1, f1, f2. repeat split; auto.
+Qed.
+
+Lemma PR_det m x d1 f1 d2 f2 : PR m x d1 f1 -> PR m x d2 f2 -> d1 = d2 /\ f1 = f2.
+Proof.
+  intros A B. apply PR_pump in A. apply PR_pump in B. rewrite A in B. injection B as -> B.
+  split; [reflexivity | apply map_some_inj; exact B].
+Qed.
+
+Lemma PR_quiescent m x d fs : PR m x d fs -> buffer_step m false d = Need.
+Proof. intros H. exact (Run_quiescent _ _ _ _ _ _ _ _ H). Qed.
+
+Lemma PR_full m F : Forall (admitted m) F -> PR m (concat (map enc_codec F)) [] F.
+Proof.
+  intros Ha. unfold PR. rewrite <- (app_nil_r (concat _)), <- (app_nil_r (map Some F)).
+  apply run_buffer_frames; [exact Ha|]. apply RunNeed. reflexivity.
+Qed.
+
+Lemma PR_prefix m b y d fs dE FE : PR m b d fs -> PR m (b ++ y) dE FE -> prefix fs FE.
+Proof.
+  intros A B. destruct (PR_split _ _ _ _ _ B) as (r1 & f1 & f2 & A' & -> & _).
+  destruct (PR_det _ _ _ _ _ _ A A') as [_ ->]. apply prefix_app.
+Qed.
+
+Lemma concat_firstn_skipn {A} (l : list (list A)) j : concat l = concat (firstn j l) ++ concat (skipn j l).
+Proof. rewrite <- concat_app, firstn_skipn. reflexivity. Qed.
+
+Lemma firstn_S_nth {A} (l : list A) : forall j x, nth_error l j = Some x -> firstn (S j) l = firstn j l ++ [x].
+Proof.
+  induction l as [|y l IH]; intros [|j] x H; cbn in H; try discriminate.
+  - inversion H; subst. reflexivity.
+  - change (firstn (S (S j)) (y :: l)) with (y :: firstn (S j) l). rewrite (IH _ _ H). reflexivity.
 Qed.
 
 Section Proofs.
@@ -96,8 +177,8 @@ Notation decrypt := (decrypt key open).
 Notation encrypt := (encrypt key seal).
 Notation write_msg_batch := (write_msg_batch key seal).
 Notation send_all := (send_all key seal).
-Notation rec_wire := (rec_wire key seal).
-Notation rec_wires := (rec_wires key seal).
+Notation chunk_wires := (chunk_wires key seal).
+Notation seal_chunks := (seal_chunks key seal).
 Notation recv_run := (recv_run key open).
 
 (* ---------- try_read_msg is an append-stable stepper ---------- *)
@@ -155,8 +236,10 @@ Proof.
 Qed.
 
 (* ---------- honest records ---------- *)
-Definition rcv (kd : ckind) (ek k : key) (sn n : N) : rstate :=
-  {| r_c := {| c_kind := kd; c_ek := ek; c_dk := k; c_sn := sn; c_rn := n |}; r_dbuf := []; r_closed := false |}.
+(* receiver state: counters, decrypted_buffer = d, open *)
+Definition rcvd (kd : ckind) (ek k : key) (sn n : N) (d : bytes) : rstate :=
+  {| r_c := {| c_kind := kd; c_ek := ek; c_dk := k; c_sn := sn; c_rn := n |}; r_dbuf := d; r_closed := false |}.
+Definition rcv (kd : ckind) (ek k : key) (sn n : N) : rstate := rcvd kd ek k sn n [].
 
 Lemma record_split ct rest : len ct < U16 ->
   len (record_of ct ++ rest) <? 2 = false /\
@@ -181,89 +264,127 @@ Proof.
   cbn [c_kind c_dk c_rn]. rewrite Hc, open_seal. destruct kd; reflexivity.
 Qed.
 
-Lemma step_record m kd ek k sn n b rest :
-  small b -> Forall (admitted m) (concat b) -> ctr_ok n = true ->
-  sstep m (rcv kd ek k sn n) (rec_wire k n b ++ rest) =
-  Step (rcv kd ek k sn (n + 1)) (length (rec_wire k n b)) (map RFrame (concat b)).
+
+Lemma okc_ct k n ch : okc ch -> len (seal k n ch) < U16.
+Proof. unfold okc. intros H. rewrite seal_len. unfold NOISE_MAX_PT, TAG, U16 in *. lia. Qed.
+
+Lemma step_chunk m kd ek k sn n d ch rest d' fs' :
+  okc ch -> ctr_ok n = true ->
+  pump (buffer_step m) buffer_mu 1 false (d ++ ch) = (false, d', map Some fs') ->
+  sstep m (rcvd kd ek k sn n d) (record_of (seal k n ch) ++ rest) =
+  Step (rcvd kd ek k sn (n + 1) d') (length (record_of (seal k n ch))) (map RFrame fs').
 Proof.
-  intros Hs Ha Hc. unfold SecFramer.rec_wire. set (pt := enc_contiguous b). set (ct := seal k n pt).
-  assert (len ct < U16) as Hl.
-  { unfold ct. rewrite seal_len. unfold small in Hs. fold pt in Hs. unfold NOISE_MAX_PT, TAG, U16 in *. lia. }
+  intros Hs Hc Hp. set (ct := seal k n ch).
+  pose proof (okc_ct k n ch Hs) as Hl. fold ct in Hl.
   destruct (record_split ct rest Hl) as (H1 & H2 & H3 & H4).
-  unfold SecFramer.sstep. cbn [rcv r_closed]. rewrite H1, H3, H4.
+  unfold SecFramer.sstep. cbn [rcvd r_closed]. rewrite H1, H3, H4.
   assert (len (record_of ct ++ rest) <? 2 + len ct = false) as ->.
   { rewrite len_app. unfold record_of. rewrite len_app. unfold len at 1. rewrite be_bytes_length. lia. }
   unfold len at 1. rewrite Nat2N.id. rewrite firstn_app_le, firstn_all by lia.
-  unfold SecFramer.on_record. cbn [rcv r_c r_dbuf]. unfold ct at 1. rewrite decrypt_honest by exact Hc.
-  cbn [app]. unfold pt. rewrite drain_batch by exact Ha.
+  unfold SecFramer.on_record. cbn [rcvd r_c r_dbuf]. unfold ct at 1. rewrite decrypt_honest by exact Hc.
+  rewrite Hp, map_map. cbn [conv].
   f_equal. unfold record_of. rewrite app_length, be_bytes_length. unfold len. rewrite Nat2N.id. reflexivity.
 Qed.
 
 (* counters stay below 2^64 for the whole sequence *)
 Definition ctr_room (n : N) (k : nat) : Prop := n + N.of_nat k + 1 < U64.
 
-Lemma run_records m kd ek k sn : forall bs n rest s' r o,
-  Forall small bs -> Forall (admitted m) (flat bs) -> ctr_room n (length bs) ->
-  Run (sstep m) (rcv kd ek k sn (n + N.of_nat (length bs))) rest s' r o ->
-  Run (sstep m) (rcv kd ek k sn n) (concat (rec_wires k n bs) ++ rest) s' r (map RFrame (flat bs) ++ o).
+Lemma run_chunks m kd ek k sn : forall chs n d d' fs' rest s' r o,
+  Forall okc chs -> ctr_room n (length chs) -> buffer_step m false d = Need ->
+  Run (buffer_step m) false (d ++ concat chs) false d' (map Some fs') ->
+  Run (sstep m) (rcvd kd ek k sn (n + N.of_nat (length chs)) d') rest s' r o ->
+  Run (sstep m) (rcvd kd ek k sn n d) (concat (chunk_wires k n chs) ++ rest) s' r (map RFrame fs' ++ o).
 Proof.
-  induction bs as [|b bs IH]; intros n rest s' r o Hs Ha Hr HR.
-  - cbn [length] in HR. replace (n + N.of_nat 0) with n in HR by lia. exact HR.
-  - inversion Hs; subst. rewrite flat_cons in *. apply Forall_app in Ha. destruct Ha as [Ha1 Ha2].
-    cbn [SecFramer.rec_wires concat]. rewrite map_app, <- !app_assoc.
+  induction chs as [|ch chs IH]; intros n d d' fs' rest s' r o Hs Hr Hq HP HR.
+  - cbn [concat] in HP. rewrite app_nil_r in HP.
+    destruct (Run_det _ _ _ _ _ _ _ _ _ _ _ HP (RunNeed _ _ _ _ _ Hq)) as (_ & -> & Hm).
+    destruct fs'; [|discriminate]. cbn [length] in HR. replace (n + N.of_nat 0) with n in HR by lia. exact HR.
+  - inversion Hs; subst. cbn [concat] in HP. rewrite app_assoc in HP.
+    destruct (PR_split _ _ _ _ _ HP) as (r1 & f1 & f2 & HA & -> & HB).
+    cbn [SecFramer.chunk_wires concat]. rewrite map_app, <- !app_assoc.
     eapply RunStep.
-    + apply step_record; auto. unfold ctr_room in Hr. unfold ctr_ok. lia.
+    + apply (step_chunk m kd ek k sn n d ch _ r1 f1); auto; [unfold ctr_room in Hr; unfold ctr_ok; lia | apply PR_pump; exact HA].
     + rewrite skipn_app, skipn_all, Nat.sub_diag. cbn [app skipn].
-      apply IH; auto.
+      apply (IH (n + 1) r1 d' f2); auto.
       * unfold ctr_room in *. cbn [length] in Hr. lia.
-      * replace (n + 1 + N.of_nat (length bs)) with (n + N.of_nat (length (b :: bs))) by (cbn [length]; lia).
+      * eapply PR_quiescent; eauto.
+      * apply pump_PR. exact HB.
+      * replace (n + 1 + N.of_nat (length chs)) with (n + N.of_nat (length (ch :: chs))) by (cbn [length]; lia).
         exact HR.
 Qed.
 
-(* enc_roundtrip_small: whatever an endpoint seals in records that fit the 16-bit length is decoded by
-   the peer (same key, counters in lock-step) to exactly the frames that were sent, for every segmentation *)
-Theorem enc_roundtrip_small m kd ek k sn n bs cs :
-  Forall small bs -> Forall (admitted m) (flat bs) -> ctr_room n (length bs) ->
-  concat cs = concat (rec_wires k n bs) ->
+(* enc_roundtrip_any_size: whatever an endpoint accepts - any number of batches of ANY size - is sealed in
+   records that the peer (same key, counters in lock-step) decodes to exactly the frames that were sent,
+   for every segmentation of the byte stream *)
+Theorem enc_roundtrip_any_size m kd ek k sn n bs cs :
+  Forall (admitted m) (flat bs) -> ctr_room n (length (all_chunks bs)) ->
+  concat cs = concat (chunk_wires k n (all_chunks bs)) ->
   feed (sstep m) (smu key) 0 (rcv kd ek k sn n) [] cs =
-    (rcv kd ek k sn (n + N.of_nat (length bs)), [], map RFrame (flat bs)).
+    (rcv kd ek k sn (n + N.of_nat (length (all_chunks bs))), [], map RFrame (flat bs)).
 Proof.
-  intros Hs Ha Hr Hc.
+  intros Ha Hr Hc.
   rewrite (sk_feed_quiescent_start (sec_ok m)) by reflexivity. cbn [app]. rewrite Hc.
   apply (sk_Run_pump (sec_ok m)).
   rewrite <- (app_nil_r (concat _)), <- (app_nil_r (map RFrame _)).
-  apply run_records; auto. apply RunNeed. reflexivity.
+  unfold rcv. apply (run_chunks m kd ek k sn (all_chunks bs) n [] []); auto.
+  - apply all_chunks_okc.
+  - cbn [app]. rewrite all_chunks_concat. apply PR_full. exact Ha.
+  - apply RunNeed. reflexivity.
 Qed.
 
-(* what the sender really emits when no call fails *)
-Definition sendable (kd : ckind) (b : list (list frame)) : Prop :=
-  match kd with KCurve => True | KNoise => small b end.
-
-Lemma write_ok kd ek dk sn rn b : sendable kd b -> ctr_ok sn = true ->
-  write_msg_batch {| c_kind := kd; c_ek := ek; c_dk := dk; c_sn := sn; c_rn := rn |} b =
-  (SOk (rec_wire ek sn b), {| c_kind := kd; c_ek := ek; c_dk := dk; c_sn := sn + 1; c_rn := rn |}).
+(* what the sender really emits: every call succeeds for every size, one record per chunk *)
+Lemma seal_chunks_ok kd ek dk rn : forall chs sn out, Forall okc chs -> ctr_room sn (length chs) ->
+  seal_chunks {| c_kind := kd; c_ek := ek; c_dk := dk; c_sn := sn; c_rn := rn |} chs out =
+  (SOk (out ++ concat (chunk_wires ek sn chs)),
+   {| c_kind := kd; c_ek := ek; c_dk := dk; c_sn := sn + N.of_nat (length chs); c_rn := rn |}).
 Proof.
-  intros Hs Hc. unfold SecFramer.write_msg_batch, SecFramer.encrypt. cbn [c_kind c_sn c_ek]. rewrite Hc.
-  destruct kd; [reflexivity|]. cbn in Hs. unfold small in Hs.
-  assert (NOISE_MAX_PT <? len (enc_contiguous b) = false) as -> by lia. reflexivity.
-Qed.
-
-Lemma send_all_ok kd ek dk rn : forall bs sn, Forall (sendable kd) bs -> ctr_room sn (length bs) ->
-  send_all {| c_kind := kd; c_ek := ek; c_dk := dk; c_sn := sn; c_rn := rn |} bs =
-  (map SOk (rec_wires ek sn bs),
-   {| c_kind := kd; c_ek := ek; c_dk := dk; c_sn := sn + N.of_nat (length bs); c_rn := rn |}).
-Proof.
-  induction bs as [|b bs IH]; intros sn Hs Hr.
-  - cbn. replace (sn + N.of_nat 0) with sn by lia. reflexivity.
-  - inversion Hs; subst. cbn [SecFramer.send_all]. rewrite write_ok; auto.
-    2:{ unfold ctr_room in Hr. unfold ctr_ok. lia. }
+  induction chs as [|ch chs IH]; intros sn out Hs Hr.
+  - cbn. rewrite app_nil_r. replace (sn + N.of_nat 0) with sn by lia. reflexivity.
+  - inversion Hs; subst. cbn [SecFramer.seal_chunks].
+    assert (ctr_ok sn = true) as Hc by (unfold ctr_room in Hr; unfold ctr_ok; lia).
+    assert (encrypt {| c_kind := kd; c_ek := ek; c_dk := dk; c_sn := sn; c_rn := rn |} ch =
+            EOk (seal ek sn ch) {| c_kind := kd; c_ek := ek; c_dk := dk; c_sn := sn + 1; c_rn := rn |}) as ->.
+    { unfold SecFramer.encrypt. cbn [c_kind c_sn c_ek]. rewrite Hc. destruct kd; [reflexivity|].
+      unfold okc in H1. assert (NOISE_MAX_PT <? len ch = false) as -> by lia. reflexivity. }
     rewrite IH; auto.
     2:{ unfold ctr_room in *. cbn [length] in Hr. lia. }
-    cbn [SecFramer.rec_wires map]. f_equal. f_equal. cbn [length]. lia.
+    cbn [SecFramer.chunk_wires concat]. rewrite <- app_assoc. f_equal. f_equal. cbn [length]. lia.
 Qed.
 
-Lemma wires_ok ws : wires (map SOk ws) = concat ws.
-Proof. unfold wires. rewrite map_map. cbn [wire_of]. rewrite map_id. reflexivity. Qed.
+Theorem write_ok kd ek dk sn rn b : ctr_room sn (length (chunks (enc_contiguous b))) ->
+  write_msg_batch {| c_kind := kd; c_ek := ek; c_dk := dk; c_sn := sn; c_rn := rn |} b =
+  (SOk (concat (chunk_wires ek sn (chunks (enc_contiguous b)))),
+   {| c_kind := kd; c_ek := ek; c_dk := dk; c_sn := sn + N.of_nat (length (chunks (enc_contiguous b))); c_rn := rn |}).
+Proof.
+  intros Hr. unfold SecFramer.write_msg_batch, SecFramer.seal_records.
+  rewrite seal_chunks_ok; [reflexivity | apply chunks_okc | exact Hr].
+Qed.
+
+Lemma chunk_wires_app k : forall a n b,
+  chunk_wires k n (a ++ b) = chunk_wires k n a ++ chunk_wires k (n + N.of_nat (length a)) b.
+Proof.
+  induction a as [|x a IH]; intros n b.
+  - cbn. replace (n + N.of_nat 0) with n by lia. reflexivity.
+  - cbn [app SecFramer.chunk_wires length]. rewrite IH. f_equal. f_equal. f_equal. lia.
+Qed.
+
+Theorem send_all_ok kd ek dk rn : forall bs sn, ctr_room sn (length (all_chunks bs)) ->
+  exists ws,
+  send_all {| c_kind := kd; c_ek := ek; c_dk := dk; c_sn := sn; c_rn := rn |} bs =
+  (map SOk ws,
+   {| c_kind := kd; c_ek := ek; c_dk := dk; c_sn := sn + N.of_nat (length (all_chunks bs)); c_rn := rn |}) /\
+  concat ws = concat (chunk_wires ek sn (all_chunks bs)).
+Proof.
+  induction bs as [|b bs IH]; intros sn Hr.
+  - exists []. cbn. replace (sn + N.of_nat 0) with sn by lia. auto.
+  - unfold all_chunks in *. cbn [map concat] in *. rewrite app_length in Hr.
+    cbn [SecFramer.send_all]. rewrite write_ok by (unfold ctr_room in *; lia).
+    destruct (IH (sn + N.of_nat (length (chunks (enc_contiguous b))))) as (ws & Hw & Hc).
+    { unfold ctr_room in *. lia. }
+    rewrite Hw. eexists (_ :: ws). split.
+    + cbn [map]. f_equal. f_equal. rewrite app_length. lia.
+    + cbn [concat]. rewrite Hc, chunk_wires_app, concat_app. reflexivity.
+Qed.
 
 (* ---------- tampering ---------- *)
 (* The attacker model. The stream [s] handed to the receiver is ARBITRARY (flips, drops, duplicates,
@@ -273,20 +394,13 @@ Proof. unfold wires. rewrite map_map. cbn [wire_of]. rewrite map_id. reflexivity
 Definition unforged (k : key) (sent : list (N * bytes)) (s : bytes) : Prop :=
   forall c, framed s c -> forall n p, n < U64 -> c = seal k n p -> In (n, p) sent.
 
-Lemma sealed_in bs : forall n0 n p, In (n, p) (sealed n0 bs) ->
-  exists j b, nth_error bs j = Some b /\ n = n0 + N.of_nat j /\ p = enc_contiguous b.
+Lemma sealed_in chs : forall n0 n p, In (n, p) (sealed n0 chs) ->
+  exists j, nth_error chs j = Some p /\ n = n0 + N.of_nat j.
 Proof.
-  induction bs as [|b bs IH]; intros n0 n p H; [destruct H|].
+  induction chs as [|ch chs IH]; intros n0 n p H; [destruct H|].
   cbn [sealed] in H. destruct H as [H|H].
-  - inversion H; subst. exists 0%nat, b. repeat split. lia.
-  - destruct (IH _ _ _ H) as (j & b' & Hn & -> & ->). exists (S j), b'. repeat split; [exact Hn | lia].
-Qed.
-
-Lemma nth_error_skipn {A} (l : list A) : forall j x, nth_error l j = Some x -> skipn j l = x :: skipn (S j) l.
-Proof.
-  induction l as [|y l IH]; intros [|j] x H; cbn in H; try discriminate.
-  - inversion H; subst. reflexivity.
-  - cbn [skipn]. rewrite (IH _ _ H). reflexivity.
+  - inversion H; subst. exists 0%nat. split; [reflexivity | lia].
+  - destruct (IH _ _ _ H) as (j & Hn & ->). exists (S j). split; [exact Hn | lia].
 Qed.
 
 Lemma decrypt_cases kd ek k sn n rec : ctr_ok n = true ->
@@ -304,91 +418,117 @@ Qed.
 
 Definition closed_st (st : rstate) : rstate := {| r_c := r_c st; r_dbuf := r_dbuf st; r_closed := true |}.
 
-(* the one non-trivial step of the receiver, seen from a drained, open state *)
-Lemma sstep_cases m kd ek k sn n s st1 cnt o1 : ctr_ok n = true ->
-  sstep m (rcv kd ek k sn n) s = Step st1 cnt o1 ->
+
+(* the one non-trivial step of the receiver, seen from an open state *)
+Lemma sstep_cases m kd ek k sn n d s st1 cnt o1 : ctr_ok n = true ->
+  sstep m (rcvd kd ek k sn n d) s = Step st1 cnt o1 ->
   let l := be_val (firstn 2 s) in
   let rec := firstn (N.to_nat l) (skipn 2 s) in
   2 <= len s /\ 2 + l <= len s /\ cnt = (2 + N.to_nat l)%nat /\
-  ((st1 = closed_st (rcv kd ek k sn n) /\ o1 = [RErr]) \/
+  ((st1 = closed_st (rcvd kd ek k sn n d) /\ o1 = [RErr]) \/
    (exists pt, open k n rec = Some pt /\
-      (st1, o1) = (let '(o, d', cl) := drain (S (length pt)) m pt in
+      (st1, o1) = (let '(f, d', o) := pump (buffer_step m) buffer_mu 1 false (d ++ pt) in
                    ({| r_c := {| c_kind := kd; c_ek := ek; c_dk := k; c_sn := sn; c_rn := n + 1 |};
-                       r_dbuf := d'; r_closed := cl |}, o)))).
+                       r_dbuf := d'; r_closed := f |}, map conv o)))).
 Proof.
-  intros Hc. unfold SecFramer.sstep. cbn [rcv r_closed].
+  intros Hc. unfold SecFramer.sstep. cbn [rcvd r_closed].
   destruct (len s <? 2) eqn:E1; [discriminate|].
   destruct (len s <? 2 + be_val (firstn 2 s)) eqn:E2; [discriminate|].
   cbv zeta. set (rec := firstn _ (skipn 2 s)).
-  unfold SecFramer.on_record. cbn [rcv r_c r_dbuf].
+  unfold SecFramer.on_record. cbn [rcvd r_c r_dbuf].
   destruct (decrypt_cases kd ek k sn n rec Hc) as [Hd | (pt & Ho & Hd)]; rewrite Hd.
   - intros H. injection H as <- <- <-. repeat split; try lia. left. split; reflexivity.
-  - cbn [app]. destruct (drain (S (length pt)) m pt) as [[o d'] cl] eqn:Ed.
-    intros H. injection H as <- <- <-. repeat split; try lia. right. exists pt. split; [exact Ho|].
-    rewrite Ed. reflexivity.
+  - destruct (pump (buffer_step m) buffer_mu 1 false (d ++ pt)) as [[f d'] o] eqn:Ed.
+    intros H. injection H as <- <- <-. repeat split; try lia. right. exists pt. split; [exact Ho|]. rewrite Ed. reflexivity.
 Qed.
 
-Lemma run_safe m kd ek k sn n0 bs :
-  Forall (admitted m) (flat bs) -> ctr_room n0 (length bs) ->
-  forall st s st' r o, Run (sstep m) st s st' r o ->
-  forall j, (j <= length bs)%nat -> st = rcv kd ek k sn (n0 + N.of_nat j) -> unforged k (sealed n0 bs) s ->
-  exists j', (j <= j' <= length bs)%nat /\
-    ((o = map RFrame (flat (firstn (j' - j) (skipn j bs))) /\ st' = rcv kd ek k sn (n0 + N.of_nat j')) \/
-     (o = map RFrame (flat (firstn (j' - j) (skipn j bs))) ++ [RErr] /\ r_closed st' = true)).
+Section Tamper.
+Variables (m : Z) (kd : ckind) (ek k : key) (sn n0 : N).
+Variable chs : list bytes.            (* the plaintext chunks the sender sealed, in order *)
+Variables (dE : bytes) (FE : list frame).
+Hypothesis Hgood : PR m (concat chs) dE FE.     (* the whole plaintext decodes to the frames FE *)
+Hypothesis Hroom : ctr_room n0 (length chs).
+
+(* the plaintext of the first j chunks decodes without error *)
+Lemma good_prefix j : exists d fs, PR m (concat (firstn j chs)) d fs.
 Proof.
-  intros Ha Hroom st s st' r o HR.
-  induction HR as [st s Hn | st s st1 cnt o1 st' r o' Hs HR IH]; intros j Hj Hst Hu.
-  - exists j. split; [lia|]. left. rewrite Nat.sub_diag. cbn [firstn flat map concat]. auto.
+  pose proof Hgood as H. rewrite (concat_firstn_skipn chs j) in H.
+  destruct (PR_split _ _ _ _ _ H) as (r1 & f1 & _ & HA & _). eauto.
+Qed.
+
+Lemma good_step j d fsj ch : nth_error chs j = Some ch -> PR m (concat (firstn j chs)) d fsj ->
+  exists d1 g, pump (buffer_step m) buffer_mu 1 false (d ++ ch) = (false, d1, map Some g) /\
+               PR m (concat (firstn (S j) chs)) d1 (fsj ++ g).
+Proof.
+  intros Hn HP. destruct (good_prefix (S j)) as (d1 & fs1 & H1).
+  pose proof H1 as H1'. rewrite (firstn_S_nth _ _ _ Hn), concat_app in H1'. cbn [concat] in H1'. rewrite app_nil_r in H1'.
+  destruct (PR_split _ _ _ _ _ H1') as (r0 & f0 & g & HA & -> & HB).
+  destruct (PR_det _ _ _ _ _ _ HP HA) as [<- <-].
+  exists d1, g. split; [exact HB | exact H1].
+Qed.
+
+Lemma run_safe :
+  forall st s st' r o, Run (sstep m) st s st' r o ->
+  forall j d fsj, (j <= length chs)%nat -> st = rcvd kd ek k sn (n0 + N.of_nat j) d ->
+  PR m (concat (firstn j chs)) d fsj -> unforged k (sealed n0 chs) s ->
+  exists j' d' g, (j <= j' <= length chs)%nat /\ PR m (concat (firstn j' chs)) d' (fsj ++ g) /\
+    ((o = map RFrame g /\ st' = rcvd kd ek k sn (n0 + N.of_nat j') d') \/
+     (o = map RFrame g ++ [RErr] /\ r_closed st' = true)).
+Proof.
+  intros st s st' r o HR.
+  induction HR as [st s Hn | st s st1 cnt o1 st' r o' Hs HR IH]; intros j d fsj Hj Hst HP Hu.
+  - exists j, d, []. split; [lia|]. rewrite app_nil_r. split; [exact HP|]. left. auto.
   - subst st.
     assert (ctr_ok (n0 + N.of_nat j) = true) as Hc by (unfold ctr_room in Hroom; unfold ctr_ok; lia).
-    destruct (sstep_cases _ _ _ _ _ _ _ _ _ _ Hc Hs) as (H2 & Hl & -> & Hcase).
+    destruct (sstep_cases _ _ _ _ _ _ _ _ _ _ _ Hc Hs) as (H2 & Hl & -> & Hcase).
     destruct Hcase as [[-> ->] | (pt & Ho & Heq)].
-    + (* authentication failed: closed, nothing more is read *)
-      destruct (run_closed m (closed_st (rcv kd ek k sn (n0 + N.of_nat j))) _ _ _ _ eq_refl HR) as (-> & _ & ->).
-      exists j. split; [lia|]. right. rewrite Nat.sub_diag. cbn [firstn flat map concat app]. auto.
-    + (* the record opened under the receive counter: it is the j-th sealed record *)
-      apply open_auth in Ho.
-      assert (In (n0 + N.of_nat j, pt) (sealed n0 bs)) as Hin.
+    + destruct (run_closed m (closed_st (rcvd kd ek k sn (n0 + N.of_nat j) d)) _ _ _ _ eq_refl HR) as (-> & _ & ->).
+      exists j, d, []. split; [lia|]. rewrite app_nil_r. split; [exact HP|]. right. auto.
+    + apply open_auth in Ho.
+      assert (In (n0 + N.of_nat j, pt) (sealed n0 chs)) as Hin.
       { apply (Hu _ (framed_here s H2 Hl)); [unfold ctr_room in Hroom; lia | exact Ho]. }
-      destruct (sealed_in _ _ _ _ Hin) as (j2 & b & Hnth & Hjj & ->).
+      destruct (sealed_in _ _ _ _ Hin) as (j2 & Hnth & Hjj).
       assert (j2 = j) as -> by lia.
-      assert (j < length bs)%nat as Hlt by (apply nth_error_Some; congruence).
-      pose proof (nth_error_skipn _ _ _ Hnth) as Hsk.
-      assert (Forall (admitted m) (concat b)) as Hab.
-      { rewrite Forall_forall in *. intros f Hf. apply Ha. unfold flat. apply in_concat.
-        exists (concat b). split; [|exact Hf]. apply in_map. eapply nth_error_In; eauto. }
-      rewrite drain_batch in Heq by exact Hab. inversion Heq; subst st1 o1.
-      destruct (IH (S j)) as (j' & Hj' & Hres).
+      assert (j < length chs)%nat as Hlt by (apply nth_error_Some; congruence).
+      destruct (good_step j d fsj pt Hnth HP) as (d1 & g1 & Hp1 & HP1).
+      rewrite Hp1 in Heq. rewrite map_map in Heq. cbn [conv] in Heq. inversion Heq; subst st1 o1.
+      destruct (IH (S j) d1 (fsj ++ g1)) as (j' & d' & g & Hj' & HP' & Hres).
       * lia.
-      * unfold rcv. f_equal. f_equal. lia.
+      * unfold rcvd. f_equal. f_equal. lia.
+      * exact HP1.
       * intros c Hf. apply Hu. apply framed_next; assumption.
-      * exists j'. split; [lia|].
-        assert (flat (firstn (j' - j) (skipn j bs)) = concat b ++ flat (firstn (j' - S j) (skipn (S j) bs))) as Hfl.
-        { rewrite Hsk. replace (j' - j)%nat with (S (j' - S j)) by lia. cbn [firstn]. apply flat_cons. }
-        rewrite Hfl, map_app.
-        destruct Hres as [[-> ->] | [-> Hcl]]; [left | right]; rewrite <- ?app_assoc; auto.
+      * exists j', d', (g1 ++ g). split; [lia|]. rewrite app_assoc. split; [exact HP'|].
+        rewrite map_app. destruct Hres as [[-> ->] | [-> Hcl]]; [left | right]; rewrite <- ?app_assoc; auto.
 Qed.
+End Tamper.
 
-(* tamper_prefix_safety: for every sequence of sealed batches and EVERY unforged stream, cut in any way,
-   the receiver hands out exactly the frames of the first j' batches (whole batches, in order, once)
-   for some j', and either stays in lock-step or has failed with an error and is closed. *)
+(* tamper_prefix_safety: for every sequence of batches (of any size) and EVERY unforged stream, cut in any
+   way, the receiver hands out a prefix [fs] of the frames that were sent - exactly the frames that are
+   complete in the plaintext of the first j' records, in order, once - and either stays in lock-step
+   or has failed with an error and is closed. *)
 Theorem tamper_prefix_safety m kd ek k sn n0 bs cs :
-  Forall (admitted m) (flat bs) -> ctr_room n0 (length bs) ->
-  unforged k (sealed n0 bs) (concat cs) ->
+  Forall (admitted m) (flat bs) -> ctr_room n0 (length (all_chunks bs)) ->
+  unforged k (sealed n0 (all_chunks bs)) (concat cs) ->
   let '(st', _, o) := feed (sstep m) (smu key) 0 (rcv kd ek k sn n0) [] cs in
-  exists j', (j' <= length bs)%nat /\
-    ((o = map RFrame (flat (firstn j' bs)) /\ st' = rcv kd ek k sn (n0 + N.of_nat j')) \/
-     (o = map RFrame (flat (firstn j' bs)) ++ [RErr] /\ r_closed st' = true)).
+  exists j' d' fs, (j' <= length (all_chunks bs))%nat /\
+    PR m (concat (firstn j' (all_chunks bs))) d' fs /\ prefix fs (flat bs) /\
+    ((o = map RFrame fs /\ st' = rcvd kd ek k sn (n0 + N.of_nat j') d') \/
+     (o = map RFrame fs ++ [RErr] /\ r_closed st' = true)).
 Proof.
   intros Ha Hr Hu.
   rewrite (sk_feed_quiescent_start (sec_ok m)) by reflexivity. cbn [app].
   pose proof (sk_pump_Run (sec_ok m) (rcv kd ek k sn n0) (concat cs)) as HR.
   destruct (pump _ _ _ _ _) as [[st' r] o].
-  destruct (run_safe m kd ek k sn n0 bs Ha Hr _ _ _ _ _ HR 0%nat) as (j' & Hj & Hres).
+  assert (PR m (concat (all_chunks bs)) [] (flat bs)) as Hgood.
+  { rewrite all_chunks_concat. apply PR_full. exact Ha. }
+  destruct (run_safe m kd ek k sn n0 (all_chunks bs) [] (flat bs) Hgood Hr _ _ _ _ _ HR 0%nat [] [])
+    as (j' & d' & g & Hj & HP & Hres).
   - lia.
-  - unfold rcv. f_equal. f_equal. lia.
+  - unfold rcv, rcvd. f_equal. f_equal. lia.
+  - cbn. apply RunNeed. reflexivity.
   - exact Hu.
-  - exists j'. split; [lia|]. rewrite Nat.sub_0_r in Hres. cbn [skipn] in Hres. exact Hres.
+  - exists j', d', g. split; [lia|]. cbn [app] in HP. split; [exact HP|]. split; [|exact Hres].
+    pose proof Hgood as Hg. rewrite (concat_firstn_skipn _ j') in Hg. eapply PR_prefix; eauto.
 Qed.
 
 (* ---------- detection: the first record that is not the next sealed one ends the connection ---------- *)
@@ -406,77 +546,84 @@ Proof.
     rewrite skipn_app, skipn_all, Nat.sub_diag. reflexivity.
 Qed.
 
-Lemma small_ct k n b : small b -> len (seal k n (enc_contiguous b)) < U16.
-Proof. unfold small. intros H. rewrite seal_len. unfold NOISE_MAX_PT, TAG, U16 in *. lia. Qed.
 
-Lemma framed_through k : forall bs n rest c, Forall small bs -> framed rest c ->
-  framed (concat (rec_wires k n bs) ++ rest) c.
+Lemma framed_through k : forall chs n rest c, Forall okc chs -> framed rest c ->
+  framed (concat (chunk_wires k n chs) ++ rest) c.
 Proof.
-  induction bs as [|b bs IH]; intros n rest c Hs Hf; [exact Hf|].
-  inversion Hs; subst. cbn [SecFramer.rec_wires concat]. rewrite <- app_assoc.
-  unfold SecFramer.rec_wire at 1.
-  destruct (record_skip (seal k n (enc_contiguous b)) (concat (rec_wires k (n + 1) bs) ++ rest)
-              (small_ct k n b H1)) as (Ha & Hb & Hc).
+  induction chs as [|ch chs IH]; intros n rest c Hs Hf; [exact Hf|].
+  inversion Hs; subst. cbn [SecFramer.chunk_wires concat]. rewrite <- app_assoc.
+  destruct (record_skip (seal k n ch) (concat (chunk_wires k (n + 1) chs) ++ rest) (okc_ct k n ch H1)) as (Ha & Hb & Hc).
   apply framed_next; [exact Ha | exact Hb |]. rewrite Hc. apply IH; assumption.
 Qed.
 
-Lemma complete_step m kd ek k sn n s : complete s = true -> sstep m (rcv kd ek k sn n) s <> Need.
+Lemma complete_step m kd ek k sn n d s : complete s = true -> sstep m (rcvd kd ek k sn n d) s <> Need.
 Proof.
   unfold complete, SecFramer.sstep. intros H. apply andb_prop in H. destruct H as [H1 H2].
-  cbn [rcv r_closed].
+  cbn [rcvd r_closed].
   assert (len s <? 2 = false) as -> by lia.
   assert (len s <? 2 + be_val (firstn 2 s) = false) as -> by lia.
   destruct (on_record _ _ _); discriminate.
 Qed.
-Lemma incomplete_need m kd ek k sn n s : complete s = false -> sstep m (rcv kd ek k sn n) s = Need.
+Lemma incomplete_need m kd ek k sn n d s : complete s = false -> sstep m (rcvd kd ek k sn n d) s = Need.
 Proof.
-  unfold complete, SecFramer.sstep. intros H. cbn [rcv r_closed].
+  unfold complete, SecFramer.sstep. intros H. cbn [rcvd r_closed].
   destruct (len s <? 2) eqn:E1; [reflexivity|].
   destruct (len s <? 2 + be_val (firstn 2 s)) eqn:E2; [reflexivity|].
   exfalso. apply andb_false_iff in H. destruct H as [H|H]; lia.
 Qed.
 
-Lemma flat_firstn_admitted m bs j : Forall (admitted m) (flat bs) -> Forall (admitted m) (flat (firstn j bs)).
-Proof.
-  intros H. rewrite <- (firstn_skipn j bs), flat_app in H. apply Forall_app in H. apply H.
-Qed.
+Lemma Forall_firstn {A} (P : A -> Prop) (l : list A) j : Forall P l -> Forall P (firstn j l).
+Proof. intros H. rewrite <- (firstn_skipn j l) in H. apply Forall_app in H. apply H. Qed.
 
+(* [j] intact records followed by [rest] that does not start with the (j+1)-th record: exactly the frames
+   that are complete in the first j records are delivered; once [rest] holds a complete record the
+   receiver fails and closes, until then it waits *)
 Theorem tamper_detected m kd ek k sn n0 bs j rest cs :
-  Forall (admitted m) (flat bs) -> ctr_room n0 (length bs) -> (j <= length bs)%nat ->
-  Forall small (firstn j bs) -> wf_bytes (firstn 2 rest) = true ->
-  (forall b, nth_error bs j = Some b -> ~ prefix (rec_wire k (n0 + N.of_nat j) b) rest) ->
-  unforged k (sealed n0 bs) (concat (rec_wires k n0 (firstn j bs)) ++ rest) ->
-  concat cs = concat (rec_wires k n0 (firstn j bs)) ++ rest ->
+  let chs := all_chunks bs in
+  Forall (admitted m) (flat bs) -> ctr_room n0 (length chs) -> (j <= length chs)%nat ->
+  wf_bytes (firstn 2 rest) = true ->
+  (forall ch, nth_error chs j = Some ch -> ~ prefix (record_of (seal k (n0 + N.of_nat j) ch)) rest) ->
+  unforged k (sealed n0 chs) (concat (chunk_wires k n0 (firstn j chs)) ++ rest) ->
+  concat cs = concat (chunk_wires k n0 (firstn j chs)) ++ rest ->
+  exists dj fsj, PR m (concat (firstn j chs)) dj fsj /\ prefix fsj (flat bs) /\
   let '(st', r, o) := feed (sstep m) (smu key) 0 (rcv kd ek k sn n0) [] cs in
   if complete rest
-  then o = map RFrame (flat (firstn j bs)) ++ [RErr] /\ r_closed st' = true
-  else o = map RFrame (flat (firstn j bs)) /\ st' = rcv kd ek k sn (n0 + N.of_nat j) /\ r = rest.
+  then o = map RFrame fsj ++ [RErr] /\ r_closed st' = true
+  else o = map RFrame fsj /\ st' = rcvd kd ek k sn (n0 + N.of_nat j) dj /\ r = rest.
 Proof.
-  intros Ha Hroom Hj Hsm Hwf Hnext Hu Hc.
+  intros chs Ha Hroom Hj Hwf Hnext Hu Hc.
+  assert (PR m (concat chs) [] (flat bs)) as Hgood.
+  { unfold chs. rewrite all_chunks_concat. apply PR_full. exact Ha. }
+  destruct (good_prefix m chs [] (flat bs) Hgood j) as (dj & fsj & HPj).
+  exists dj, fsj. split; [exact HPj|]. split.
+  { pose proof Hgood as Hg. rewrite (concat_firstn_skipn _ j) in Hg. eapply PR_prefix; eauto. }
   rewrite (sk_feed_quiescent_start (sec_ok m)) by reflexivity. cbn [app]. rewrite Hc.
-  assert (length (firstn j bs) = j) as Hlen by (apply firstn_length_le; exact Hj).
-  assert (ctr_room n0 (length (firstn j bs))) as Hroom' by (unfold ctr_room in *; lia).
-  pose proof (flat_firstn_admitted m bs j Ha) as Ha'.
+  assert (length (firstn j chs) = j) as Hlen by (apply firstn_length_le; exact Hj).
+  assert (ctr_room n0 (length (firstn j chs))) as Hroom' by (unfold ctr_room in *; lia).
+  assert (Forall okc (firstn j chs)) as Hok' by (apply Forall_firstn; apply all_chunks_okc).
   assert (ctr_ok (n0 + N.of_nat j) = true) as Hok by (unfold ctr_room in Hroom; unfold ctr_ok; lia).
+  assert (forall s' r o, Run (sstep m) (rcvd kd ek k sn (n0 + N.of_nat j) dj) rest s' r o ->
+            Run (sstep m) (rcv kd ek k sn n0) (concat (chunk_wires k n0 (firstn j chs)) ++ rest) s' r
+                (map RFrame fsj ++ o)) as Hrun.
+  { intros s' r o HR. unfold rcv. apply (run_chunks m kd ek k sn (firstn j chs) n0 [] dj fsj); auto.
+    rewrite Hlen. exact HR. }
   destruct (complete rest) eqn:Ecomp.
-  - destruct (sstep m (rcv kd ek k sn (n0 + N.of_nat j)) rest) as [|st1 cnt o1] eqn:Es.
+  - destruct (sstep m (rcvd kd ek k sn (n0 + N.of_nat j) dj) rest) as [|st1 cnt o1] eqn:Es.
     { exfalso. eapply complete_step; eauto. }
-    destruct (sstep_cases _ _ _ _ _ _ _ _ _ _ Hok Es) as (H2 & Hl & -> & Hcase).
+    destruct (sstep_cases _ _ _ _ _ _ _ _ _ _ _ Hok Es) as (H2 & Hl & -> & Hcase).
     destruct Hcase as [[-> ->] | (pt & Ho & Heq)].
-    + assert (Run (sstep m) (rcv kd ek k sn n0) (concat (rec_wires k n0 (firstn j bs)) ++ rest)
-                (closed_st (rcv kd ek k sn (n0 + N.of_nat j)))
-                (skipn (2 + N.to_nat (be_val (firstn 2 rest))) rest)
-                (map RFrame (flat (firstn j bs)) ++ [RErr] ++ [])) as HR.
-      { apply run_records; auto. rewrite Hlen. eapply RunStep; [exact Es|]. apply RunNeed. reflexivity. }
-      apply (sk_Run_pump (sec_ok m)) in HR. rewrite HR. auto.
+    + assert (Run (sstep m) (rcvd kd ek k sn (n0 + N.of_nat j) dj) rest
+                (closed_st (rcvd kd ek k sn (n0 + N.of_nat j) dj))
+                (skipn (2 + N.to_nat (be_val (firstn 2 rest))) rest) ([RErr] ++ [])) as HR.
+      { eapply RunStep; [exact Es|]. apply RunNeed. reflexivity. }
+      apply Hrun in HR. apply (sk_Run_pump (sec_ok m)) in HR. rewrite HR. auto.
     + exfalso. apply open_auth in Ho.
-      assert (In (n0 + N.of_nat j, pt) (sealed n0 bs)) as Hin.
-      { apply (Hu _ (framed_through k _ n0 rest _ Hsm (framed_here rest H2 Hl)));
+      assert (In (n0 + N.of_nat j, pt) (sealed n0 chs)) as Hin.
+      { apply (Hu _ (framed_through k _ n0 rest _ Hok' (framed_here rest H2 Hl)));
           [unfold ctr_room in Hroom; lia | exact Ho]. }
-      destruct (sealed_in _ _ _ _ Hin) as (j2 & b & Hnth & Hjj & ->).
+      destruct (sealed_in _ _ _ _ Hin) as (j2 & Hnth & Hjj).
       assert (j2 = j) as -> by lia.
-      apply (Hnext b Hnth). unfold SecFramer.rec_wire. rewrite <- Ho.
-      (* rest = [a; b'] ++ t, the framed record is firstn l t *)
+      apply (Hnext pt Hnth). rewrite <- Ho.
       destruct rest as [|a [|b' t]]; [unfold len in H2; cbn in H2; lia | unfold len in H2; cbn in H2; lia |].
       cbn [firstn skipn] in *. cbn [wf_bytes forallb] in Hwf.
       apply andb_prop in Hwf. destruct Hwf as [Hwa Hwf]. apply andb_prop in Hwf. destruct Hwf as [Hwb _].
@@ -487,153 +634,57 @@ Proof.
       { unfold len. rewrite firstn_length_le; [lia|]. unfold len in Hl. cbn [length] in Hl. lia. }
       unfold record_of. rewrite Hlr, N.mod_small by exact Hl16. unfold l at 1. rewrite be2_of_val by assumption.
       exists (skipn (N.to_nat l) t). cbn [app]. rewrite firstn_skipn. reflexivity.
-  - assert (Run (sstep m) (rcv kd ek k sn n0) (concat (rec_wires k n0 (firstn j bs)) ++ rest)
-              (rcv kd ek k sn (n0 + N.of_nat j)) rest (map RFrame (flat (firstn j bs)) ++ [])) as HR.
-    { apply run_records; auto. rewrite Hlen. apply RunNeed. apply incomplete_need. exact Ecomp. }
-    apply (sk_Run_pump (sec_ok m)) in HR. rewrite HR, app_nil_r. auto.
-Qed.
-
-(* ---------- batches whose ciphertext does not fit the 16-bit length ---------- *)
-Lemma record_split_gen ct rest :
-  len (record_of ct ++ rest) <? 2 = false /\
-  be_val (firstn 2 (record_of ct ++ rest)) = len ct mod U16 /\
-  skipn 2 (record_of ct ++ rest) = ct ++ rest.
-Proof.
-  unfold record_of. rewrite <- app_assoc.
-  assert (length (be_bytes 2 (len ct mod U16)) = 2%nat) as H2 by apply be_bytes_length.
-  destruct (firstn_skipn_app 2 (be_bytes 2 (len ct mod U16)) (ct ++ rest) H2) as [Hf Hk].
-  rewrite Hf, Hk. repeat split.
-  - rewrite len_app. unfold len at 1. rewrite H2. lia.
-  - apply be2_val. apply N.mod_lt. discriminate.
-Qed.
-
-(* Noise refuses the batch: an error at the sender, nothing emitted, cipher state untouched *)
-Theorem noise_large_refused ek dk sn rn b : ~ small b ->
-  let c := {| c_kind := KNoise; c_ek := ek; c_dk := dk; c_sn := sn; c_rn := rn |} in
-  write_msg_batch c b = (SErr, c).
-Proof.
-  intros Hs c. unfold SecFramer.write_msg_batch, SecFramer.encrypt, c. cbn [c_kind].
-  unfold small in Hs. assert (NOISE_MAX_PT <? len (enc_contiguous b) = true) as -> by lia. reflexivity.
-Qed.
-
-(* CURVE accepts every size: the caller gets Ok and a record whose length prefix is len mod 65536 *)
-Theorem curve_any_size_accepted ek dk sn rn b : ctr_ok sn = true ->
-  write_msg_batch {| c_kind := KCurve; c_ek := ek; c_dk := dk; c_sn := sn; c_rn := rn |} b =
-  (SOk (rec_wire ek sn b), {| c_kind := KCurve; c_ek := ek; c_dk := dk; c_sn := sn + 1; c_rn := rn |}).
-Proof. intros. apply write_ok; [exact I | assumption]. Qed.
-
-(* ... and the peer never decodes such a record: it delivers nothing from it, whatever follows *)
-Theorem wrapped_record_undecodable m kd ek k sn n b rest cs :
-  ~ small b -> ctr_ok n = true ->
-  unforged k [(n, enc_contiguous b)] (rec_wire k n b ++ rest) ->
-  concat cs = rec_wire k n b ++ rest ->
-  let '(st', _, o) := feed (sstep m) (smu key) 0 (rcv kd ek k sn n) [] cs in
-  o = [] \/ (o = [RErr] /\ r_closed st' = true).
-Proof.
-  intros Hs Hok Hu Hc.
-  rewrite (sk_feed_quiescent_start (sec_ok m)) by reflexivity. cbn [app]. rewrite Hc.
-  set (s := rec_wire k n b ++ rest) in *.
-  destruct (sstep m (rcv kd ek k sn n) s) as [|st1 cnt o1] eqn:Es.
-  - rewrite (sk_Run_pump (sec_ok m) _ _ _ _ _ (RunNeed _ _ _ _ _ Es)). left. reflexivity.
-  - destruct (sstep_cases _ _ _ _ _ _ _ _ _ _ Hok Es) as (H2 & Hl & -> & Hcase).
-    destruct Hcase as [[-> ->] | (pt & Ho & Heq)].
-    + assert (Run (sstep m) (rcv kd ek k sn n) s (closed_st (rcv kd ek k sn n))
-                (skipn (2 + N.to_nat (be_val (firstn 2 s))) s) ([RErr] ++ [])) as HR.
-      { eapply RunStep; [exact Es|]. apply RunNeed. reflexivity. }
-      rewrite (sk_Run_pump (sec_ok m) _ _ _ _ _ HR). right. auto.
-    + exfalso. apply open_auth in Ho.
-      assert (In (n, pt) [(n, enc_contiguous b)]) as Hin.
-      { apply (Hu _ (framed_here s H2 Hl)); [unfold ctr_ok in Hok; lia | exact Ho]. }
-      destruct Hin as [Hin|[]]. inversion Hin; subst pt. clear Hin.
-      unfold s, SecFramer.rec_wire in Ho.
-      set (ct := seal k n (enc_contiguous b)) in *.
-      destruct (record_split_gen ct rest) as (_ & Hv & Hk). rewrite Hv, Hk in Ho.
-      assert (U16 <= len ct) as Hbig.
-      { unfold ct. rewrite seal_len. unfold small in Hs. unfold NOISE_MAX_PT, TAG, U16 in *. lia. }
-      assert (len ct mod U16 < U16) as Hm by (apply N.mod_lt; discriminate).
-      apply (f_equal (@length N)) in Ho. rewrite firstn_length in Ho. unfold len in *. lia.
-Qed.
-
-Lemma short_record_err m kd ek k sn n s : complete s = true -> be_val (firstn 2 s) < TAG ->
-  sstep m (rcv kd ek k sn n) s =
-  Step (closed_st (rcv kd ek k sn n)) (2 + N.to_nat (be_val (firstn 2 s))) [RErr].
-Proof.
-  unfold complete, SecFramer.sstep. intros H Hl. apply andb_prop in H. destruct H as [H1 H2].
-  cbn [rcv r_closed].
-  assert (len s <? 2 = false) as -> by lia.
-  assert (len s <? 2 + be_val (firstn 2 s) = false) as -> by lia.
-  unfold SecFramer.on_record, SecFramer.decrypt.
-  assert (len (firstn (N.to_nat (be_val (firstn 2 s))) (skipn 2 s)) <? TAG = true) as ->.
-  { unfold len. rewrite firstn_length. lia. }
-  reflexivity.
-Qed.
-
-Lemma len_repeat (x : N) n : len (repeat x (N.to_nat n)) = n.
-Proof. unfold len. rewrite repeat_length. lia. Qed.
-
-Lemma one_long_frame_len more p : 255 < len p -> len p < U64 ->
-  len (enc_contiguous [[ {| f_more := more; f_cmd := false; f_payload := p |} ]]) = 9 + len p.
-Proof.
-  intros H1 H2. unfold enc_contiguous. cbn [concat map app]. rewrite !app_nil_r.
-  unfold enc_codec, enc_header_only, enc_header. cbn [f_payload f_more f_cmd].
-  assert (len p <=? 255 = false) as -> by lia.
-  rewrite len_app. unfold len at 1. cbn [length]. rewrite be_bytes_length. lia.
-Qed.
-
-(* the unconditional witness: one frame of 65520 bytes. The sender's call succeeds; the record goes out
-   with length prefix 9; the peer reads a 9-byte "record", fails and closes. No AEAD reasoning. *)
-Definition wrap_witness : list (list frame) :=
-  [[ {| f_more := false; f_cmd := false; f_payload := repeat 0 (N.to_nat 65520) |} ]].
-
-Theorem enc_roundtrip_any_size_refuted m ek k sn n :
-  ctr_ok n = true ->
-  fst (write_msg_batch {| c_kind := KCurve; c_ek := k; c_dk := ek; c_sn := n; c_rn := sn |} wrap_witness)
-    = SOk (rec_wire k n wrap_witness) /\
-  let '(st', _, o) := pump (sstep m) (smu key) 0 (rcv KCurve ek k sn n) (rec_wire k n wrap_witness) in
-  o = [RErr] /\ r_closed st' = true.
-Proof.
-  intros Hok. split; [rewrite curve_any_size_accepted by exact Hok; reflexivity|].
-  set (s := rec_wire k n wrap_witness).
-  assert (len (enc_contiguous wrap_witness) = 65529) as Hpt.
-  { unfold wrap_witness. rewrite one_long_frame_len; rewrite len_repeat; unfold U64; lia. }
-  set (ct := seal k n (enc_contiguous wrap_witness)).
-  assert (len ct = 65545) as Hct by (unfold ct; rewrite seal_len, Hpt; reflexivity).
-  destruct (record_split_gen ct []) as (H1 & Hv & Hk).
-  assert (s = record_of ct ++ []) as Hs by (rewrite app_nil_r; reflexivity).
-  rewrite <- Hs in *. rewrite Hct in Hv. change (65545 mod U16) with 9 in Hv.
-  assert (len s = 65547) as Hls.
-  { rewrite Hs, app_nil_r. unfold record_of. rewrite len_app, Hct. unfold len. rewrite be_bytes_length. reflexivity. }
-  assert (complete s = true) as Hcomp.
-  { unfold complete. rewrite Hv, Hls. reflexivity. }
-  assert (Run (sstep m) (rcv KCurve ek k sn n) s (closed_st (rcv KCurve ek k sn n))
-            (skipn (2 + N.to_nat (be_val (firstn 2 s))) s) ([RErr] ++ [])) as HR.
-  { eapply RunStep; [apply short_record_err; [exact Hcomp | rewrite Hv; reflexivity]|].
-    apply RunNeed. reflexivity. }
-  rewrite (sk_Run_pump (sec_ok m) _ _ _ _ _ HR). auto.
+  - assert (Run (sstep m) (rcvd kd ek k sn (n0 + N.of_nat j) dj) rest
+              (rcvd kd ek k sn (n0 + N.of_nat j) dj) rest []) as HR.
+    { apply RunNeed. apply incomplete_need. exact Ecomp. }
+    apply Hrun in HR. apply (sk_Run_pump (sec_ok m)) in HR. rewrite HR, app_nil_r. auto.
 Qed.
 
 (* ---------- nothing but length prefixes and seal outputs ---------- *)
-Theorem no_cleartext c b w c' : write_msg_batch c b = (SOk w, c') ->
-  w = be_bytes 2 (len (seal (c_ek c) (c_sn c) (enc_contiguous b)) mod U16) ++
-      seal (c_ek c) (c_sn c) (enc_contiguous b).
+Lemma seal_chunks_shape chs : forall c out w c', seal_chunks c chs out = (SOk w, c') ->
+  w = out ++ concat (chunk_wires (c_ek c) (c_sn c) chs).
 Proof.
-  unfold SecFramer.write_msg_batch, SecFramer.encrypt.
-  destruct (c_kind c).
-  - destruct (ctr_ok (c_sn c)); intros H; inversion H. reflexivity.
-  - destruct (NOISE_MAX_PT <? _); [intros H; inversion H|].
-    destruct (ctr_ok (c_sn c)); intros H; inversion H. reflexivity.
+  induction chs as [|ch chs IH]; intros c out w c' H.
+  - cbn in H. inversion H. rewrite app_nil_r. reflexivity.
+  - cbn [SecFramer.seal_chunks] in H.
+    assert (forall ct c1, encrypt c ch = EOk ct c1 -> ct = seal (c_ek c) (c_sn c) ch /\ c_ek c1 = c_ek c /\ c_sn c1 = c_sn c + 1) as He.
+    { unfold SecFramer.encrypt. intros ct c1.
+      destruct (c_kind c); [|destruct (NOISE_MAX_PT <? len ch); [discriminate|]];
+        destruct (ctr_ok (c_sn c)); intros E; inversion E; auto. }
+    destruct (encrypt c ch) as [ct c1| |]; try discriminate.
+    destruct (He ct c1 eq_refl) as (-> & Hk & Hn).
+    rewrite (IH _ _ _ _ H), Hk, Hn. cbn [SecFramer.chunk_wires concat]. rewrite <- app_assoc. reflexivity.
 Qed.
 
-(* the wire depends on the batch only through the output of [seal] *)
+(* no_cleartext (symbolic): what a write call emits is, per 65519-byte chunk of the plaintext, a length
+   prefix computed from a length and ONE seal output *)
+Theorem no_cleartext c b w c' : write_msg_batch c b = (SOk w, c') ->
+  w = concat (chunk_wires (c_ek c) (c_sn c) (chunks (enc_contiguous b))).
+Proof. intros H. apply seal_chunks_shape in H. exact H. Qed.
+
+Lemma seal_chunks_ni : forall chs1 chs2 c out,
+  Forall2 (fun a b => forall n, seal (c_ek c) n a = seal (c_ek c) n b) chs1 chs2 ->
+  seal_chunks c chs1 out = seal_chunks c chs2 out.
+Proof.
+  induction chs1 as [|a chs1 IH]; intros [|b chs2] c out HF; inversion HF; subst; [reflexivity|]. cbn [SecFramer.seal_chunks].
+  assert (len a = len b) as Hlen.
+  { pose proof (seal_len (c_ek c) 0 a) as A. pose proof (seal_len (c_ek c) 0 b) as B. rewrite H2 in A. lia. }
+  assert (encrypt c a = encrypt c b) as ->.
+  { unfold SecFramer.encrypt. rewrite Hlen, H2. reflexivity. }
+  destruct (encrypt c b) as [ct c1| |] eqn:E; try reflexivity.
+  assert (c_ek c1 = c_ek c) as Hk.
+  { revert E. unfold SecFramer.encrypt.
+    destruct (c_kind c); [|destruct (NOISE_MAX_PT <? len b); [discriminate|]];
+      destruct (ctr_ok (c_sn c)); intros E; inversion E; reflexivity. }
+  apply IH. rewrite Hk. assumption.
+Qed.
+(* the wire depends on the batch only through the outputs of [seal] on its chunks *)
 Theorem no_cleartext_noninterference c b1 b2 :
-  seal (c_ek c) (c_sn c) (enc_contiguous b1) = seal (c_ek c) (c_sn c) (enc_contiguous b2) ->
+  Forall2 (fun a b => forall n, seal (c_ek c) n a = seal (c_ek c) n b)
+          (chunks (enc_contiguous b1)) (chunks (enc_contiguous b2)) ->
   write_msg_batch c b1 = write_msg_batch c b2.
 Proof.
-  intros H. unfold SecFramer.write_msg_batch, SecFramer.encrypt.
-  assert (len (enc_contiguous b1) = len (enc_contiguous b2)) as Hl.
-  { pose proof (seal_len (c_ek c) (c_sn c) (enc_contiguous b1)) as A.
-    pose proof (seal_len (c_ek c) (c_sn c) (enc_contiguous b2)) as B. rewrite H in A. lia. }
-  rewrite H, Hl. reflexivity.
+  intros H. unfold SecFramer.write_msg_batch, SecFramer.seal_records. apply seal_chunks_ni. exact H.
 Qed.
 
 (* ---------- heartbeats: PING / PONG are written outside the record layer ---------- *)
@@ -659,12 +710,12 @@ Qed.
 (* the peer's framer reads the first two bytes of the PING frame (flags 0x04, size 7) as the record
    length 0x0407 = 1031 and waits: the PING is not decoded, no PONG is produced, and up to 1023 bytes
    that follow (honest records included) are not looked at *)
-Theorem heartbeat_swallowed m kd ek k sn n ttl rest : len rest < 1024 ->
-  pump (sstep m) (smu key) 0 (rcv kd ek k sn n) (hb_ping ttl ++ rest) =
-  (rcv kd ek k sn n, hb_ping ttl ++ rest, []).
+Theorem heartbeat_swallowed m kd ek k sn n d ttl rest : len rest < 1024 ->
+  pump (sstep m) (smu key) 0 (rcvd kd ek k sn n d) (hb_ping ttl ++ rest) =
+  (rcvd kd ek k sn n d, hb_ping ttl ++ rest, []).
 Proof.
   intros Hl. apply (sk_Run_pump (sec_ok m)). apply RunNeed.
-  rewrite hb_ping_eq. unfold SecFramer.sstep. cbn [rcv r_closed].
+  rewrite hb_ping_eq. unfold SecFramer.sstep. cbn [rcvd r_closed].
   rewrite <- app_assoc. cbn [app firstn].
   change (be_val [4; 7]) with 1031.
   destruct (len _ <? 2); [reflexivity|].
@@ -672,12 +723,12 @@ Proof.
   unfold len in *. cbn [length]. rewrite app_length, be_bytes_length. lia.
 Qed.
 
-Theorem pong_swallowed m kd ek k sn n ctx rest : len ctx <= 250 -> len rest < 1024 ->
-  pump (sstep m) (smu key) 0 (rcv kd ek k sn n) (hb_pong ctx ++ rest) =
-  (rcv kd ek k sn n, hb_pong ctx ++ rest, []).
+Theorem pong_swallowed m kd ek k sn n d ctx rest : len ctx <= 250 -> len rest < 1024 ->
+  pump (sstep m) (smu key) 0 (rcvd kd ek k sn n d) (hb_pong ctx ++ rest) =
+  (rcvd kd ek k sn n d, hb_pong ctx ++ rest, []).
 Proof.
   intros Hc Hl. apply (sk_Run_pump (sec_ok m)). apply RunNeed.
-  rewrite hb_pong_eq by exact Hc. unfold SecFramer.sstep. cbn [rcv r_closed].
+  rewrite hb_pong_eq by exact Hc. unfold SecFramer.sstep. cbn [rcvd r_closed].
   rewrite <- app_assoc. cbn [app firstn].
   assert (be_val [4; 5 + len ctx] = 1029 + len ctx) as -> by (unfold be_val; cbn [fold_left]; lia).
   destruct (len _ <? 2); [reflexivity|].
@@ -688,23 +739,24 @@ Qed.
 (* an honest endpoint: batches, then a heartbeat tick, then more batches (fewer than 1024 bytes of
    records). The peer delivers what came before the PING and nothing after it. *)
 Theorem heartbeat_decodable_refuted m kd ek k sn n bs1 ttl bs2 cs :
-  Forall small bs1 -> Forall (admitted m) (flat bs1) -> ctr_room n (length bs1) ->
-  len (concat (rec_wires k (n + N.of_nat (length bs1)) bs2)) < 1024 ->
-  concat cs = concat (rec_wires k n bs1) ++ hb_ping ttl ++ concat (rec_wires k (n + N.of_nat (length bs1)) bs2) ->
+  let k1 := N.of_nat (length (all_chunks bs1)) in
+  Forall (admitted m) (flat bs1) -> ctr_room n (length (all_chunks bs1)) ->
+  len (concat (chunk_wires k (n + k1) (all_chunks bs2))) < 1024 ->
+  concat cs = concat (chunk_wires k n (all_chunks bs1)) ++ hb_ping ttl ++ concat (chunk_wires k (n + k1) (all_chunks bs2)) ->
   feed (sstep m) (smu key) 0 (rcv kd ek k sn n) [] cs =
-  (rcv kd ek k sn (n + N.of_nat (length bs1)),
-   hb_ping ttl ++ concat (rec_wires k (n + N.of_nat (length bs1)) bs2),
-   map RFrame (flat bs1)).
+  (rcv kd ek k sn (n + k1), hb_ping ttl ++ concat (chunk_wires k (n + k1) (all_chunks bs2)), map RFrame (flat bs1)).
 Proof.
-  intros Hs Ha Hr Hl Hc.
+  intros k1 Ha Hr Hl Hc.
   rewrite (sk_feed_quiescent_start (sec_ok m)) by reflexivity. cbn [app]. rewrite Hc.
   apply (sk_Run_pump (sec_ok m)).
   rewrite <- (app_nil_r (map RFrame _)).
-  apply run_records; auto.
-  pose proof (heartbeat_swallowed m kd ek k sn (n + N.of_nat (length bs1)) ttl _ Hl) as Hp.
-  pose proof (sk_pump_Run (sec_ok m) (rcv kd ek k sn (n + N.of_nat (length bs1)))
-                (hb_ping ttl ++ concat (rec_wires k (n + N.of_nat (length bs1)) bs2))) as HR.
-  rewrite Hp in HR. exact HR.
+  unfold rcv. apply (run_chunks m kd ek k sn (all_chunks bs1) n [] []); auto.
+  - apply all_chunks_okc.
+  - cbn [app]. rewrite all_chunks_concat. apply PR_full. exact Ha.
+  - pose proof (heartbeat_swallowed m kd ek k sn (n + k1) [] ttl _ Hl) as Hp.
+    pose proof (sk_pump_Run (sec_ok m) (rcvd kd ek k sn (n + k1) [])
+                  (hb_ping ttl ++ concat (chunk_wires k (n + k1) (all_chunks bs2)))) as HR.
+    rewrite Hp in HR. exact HR.
 Qed.
 
 (* the receiving engine answers a PING that DID arrive inside a record with a PONG written in clear,
@@ -763,15 +815,26 @@ Qed.
 Theorem sessions_differ_noise server sk (e1 e2 e1' e2' : eph) b :
   (forall k k' n p, seal k n p = seal k' n p -> k = k') ->
   snd (noise_split server sk e1 e2) <> snd (noise_split server sk e1' e2') ->
-  small b ->
+  enc_contiguous b <> [] -> ctr_room 0 (length (chunks (enc_contiguous b))) ->
   fst (write_msg_batch (noise_data_cipher server sk e1 e2) b) <>
   fst (write_msg_batch (noise_data_cipher server sk e1' e2') b).
 Proof.
-  intros Hinj Hk Hs. unfold SecFramer.noise_data_cipher.
+  intros Hinj Hk Hne Hroom. unfold SecFramer.noise_data_cipher.
   destruct (noise_split server sk e1 e2) as [rx tx]. destruct (noise_split server sk e1' e2') as [rx' tx'].
   cbn [snd] in Hk. unfold cipher_new. cbn [ctr_start].
-  rewrite !write_ok by (try exact Hs; reflexivity). cbn [fst].
-  intros H. apply (f_equal wire_of) in H. cbn [wire_of] in H. rename H into H1. unfold SecFramer.rec_wire in H1. apply record_of_inj in H1. apply Hk. eapply Hinj. exact H1.
+  destruct (chunks_nonempty _ Hne) as (ch & r & Hch).
+  rewrite !write_ok by exact Hroom. cbn [fst]. rewrite Hch. cbn [SecFramer.chunk_wires concat].
+  intros H. apply (f_equal wire_of) in H. cbn [wire_of] in H.
+  assert (len (seal tx 0 ch) = len (seal tx' 0 ch)) as Hl by (rewrite !seal_len; reflexivity).
+  assert (record_of (seal tx 0 ch) = record_of (seal tx' 0 ch)) as H1.
+  { apply (f_equal (firstn (length (record_of (seal tx 0 ch))))) in H.
+    rewrite firstn_app, Nat.sub_diag, firstn_all in H. cbn [firstn] in H. rewrite app_nil_r in H.
+    rewrite H. unfold record_of at 1. rewrite app_length, be_bytes_length.
+    assert (length (seal tx 0 ch) = length (seal tx' 0 ch)) as Hl' by (unfold len in Hl; lia).
+    rewrite Hl'. replace (2 + length (seal tx' 0 ch))%nat with (length (record_of (seal tx' 0 ch)))
+      by (unfold record_of; rewrite app_length, be_bytes_length; reflexivity).
+    rewrite firstn_app, Nat.sub_diag, firstn_all. cbn [firstn]. rewrite app_nil_r. reflexivity. }
+  apply record_of_inj in H1. apply Hk. eapply Hinj. exact H1.
 Qed.
 End Sessions.
 
@@ -833,25 +896,71 @@ Proof.
   cbn [map concat]. rewrite concat_app, IH. reflexivity.
 Qed.
 
-(* the application sees whole messages of a prefix of the batches, once each, in order; then
-   nothing, or one error *)
+
+Lemma prefix_app_cases {A} (a : list A) : forall fs b, prefix fs (a ++ b) ->
+  (exists t, a = fs ++ t /\ t <> []) \/ exists fs', fs = a ++ fs' /\ prefix fs' b.
+Proof.
+  induction a as [|x a IH]; intros fs b [d H].
+  - right. exists fs. split; [reflexivity | exists d; exact H].
+  - destruct fs as [|y fs].
+    + left. exists (x :: a). split; [reflexivity | discriminate].
+    + cbn [app] in H. injection H as -> H.
+      destruct (IH fs b (ex_intro _ d H)) as [(t & -> & Ht) | (fs' & -> & Hp)].
+      * left. exists t. auto.
+      * right. exists fs'. auto.
+Qed.
+
+Lemma snoc_split {A} (init : list A) l fs t : init ++ [l] = fs ++ t -> t <> [] -> exists t', init = fs ++ t'.
+Proof.
+  intros H Ht. destruct (exists_last Ht) as (t' & z & ->).
+  rewrite app_assoc in H. apply app_inj_tail in H. destruct H as [H _]. eauto.
+Qed.
+
+(* frames forming a prefix of a sequence of well-formed messages: the engine delivers whole messages only *)
+Lemma data_fold_prefix msgs : Forall wf_msg msgs -> forall fs, prefix fs (concat msgs) ->
+  exists kk, (kk <= length msgs)%nat /\
+    snd (data_fold d_init (map RFrame fs)) = map ODeliver (firstn kk msgs) /\
+    d_closed (fst (data_fold d_init (map RFrame fs))) = false.
+Proof.
+  induction 1 as [|msg msgs Hm Hms IH]; intros fs Hp.
+  - destruct Hp as [d Hd]. cbn in Hd. symmetry in Hd. apply app_eq_nil in Hd. destruct Hd as [-> _].
+    exists 0%nat. cbn. auto.
+  - cbn [concat] in Hp. destruct (prefix_app_cases _ _ _ Hp) as [(t & Hmsg & Ht) | (fs' & -> & Hp')].
+    + exists 0%nat. split; [lia|]. cbn [firstn map].
+      destruct Hm as [(init & l & -> & Hi & _ & _) Hlen].
+      destruct (snoc_split _ _ _ _ Hmsg Ht) as (t' & ->).
+      apply Forall_app in Hi. destruct Hi as [Hfs _].
+      rewrite !app_length in Hlen. cbn [length] in Hlen.
+      unfold d_init. rewrite data_fold_more by (auto; cbn [length]; lia). cbn. auto.
+    + destruct (IH _ Hp') as (kk & Hk & Ho & Hc).
+      exists (S kk). split; [cbn [length]; lia|].
+      rewrite map_app, data_fold_app, data_fold_msg by exact Hm.
+      destruct (data_fold d_init (map RFrame fs')) as [s2 e2]. cbn [snd fst] in *.
+      rewrite Ho. cbn [firstn map app]. auto.
+Qed.
+
+(* the application sees whole messages of a prefix of what was sent, once each, in order; then nothing,
+   or one error *)
 Theorem tamper_messages m kd ek k sn n0 bs cs :
-  Forall (admitted m) (flat bs) -> Forall wf_msg (all_msgs bs) -> ctr_room n0 (length bs) ->
-  unforged k (sealed n0 bs) (concat cs) ->
+  Forall (admitted m) (flat bs) -> Forall wf_msg (all_msgs bs) -> ctr_room n0 (length (all_chunks bs)) ->
+  unforged k (sealed n0 (all_chunks bs)) (concat cs) ->
   let '(_, _, o) := feed (sstep m) (smu key) 0 (rcv kd ek k sn n0) [] cs in
-  exists j', (j' <= length bs)%nat /\
-    (snd (data_fold d_init o) = map ODeliver (all_msgs (firstn j' bs)) \/
-     snd (data_fold d_init o) = map ODeliver (all_msgs (firstn j' bs)) ++ [OErr ESecurity]).
+  exists kk, (kk <= length (all_msgs bs))%nat /\
+    (snd (data_fold d_init o) = map ODeliver (firstn kk (all_msgs bs)) \/
+     snd (data_fold d_init o) = map ODeliver (firstn kk (all_msgs bs)) ++ [OErr ESecurity]).
 Proof.
   intros Ha Hw Hr Hu.
   pose proof (tamper_prefix_safety m kd ek k sn n0 bs cs Ha Hr Hu) as H.
   destruct (feed _ _ _ _ _ _) as [[st' r] o].
-  destruct H as (j' & Hj & Hres). exists j'. split; [exact Hj|].
-  assert (Forall wf_msg (all_msgs (firstn j' bs))) as Hw'.
-  { unfold all_msgs in *. rewrite <- (firstn_skipn j' bs), concat_app in Hw. apply Forall_app in Hw. apply Hw. }
+  destruct H as (j' & d' & fs & Hj & _ & Hp & Hres).
+  rewrite flat_concat in Hp.
+  destruct (data_fold_prefix _ Hw _ Hp) as (kk & Hk & Ho & Hc).
+  exists kk. split; [exact Hk|].
   destruct Hres as [[-> _] | [-> _]].
-  - left. rewrite flat_concat, data_fold_msgs by exact Hw'. reflexivity.
-  - right. rewrite flat_concat, data_fold_app, data_fold_msgs by exact Hw'. reflexivity.
+  - left. exact Ho.
+  - right. rewrite data_fold_app.
+    destruct (data_fold d_init (map RFrame fs)) as [s1 e1]. cbn [snd fst] in *.
+    cbn [data_fold]. unfold data_on. rewrite Hc. cbn [snd app]. rewrite Ho. reflexivity.
 Qed.
 
 End Proofs.
@@ -896,20 +1005,25 @@ Qed.
 Definition ex_b0 : list (list frame) := [[ {| f_more := false; f_cmd := false; f_payload := [1; 2; 3] |} ]].
 Definition ex_b1 : list (list frame) := [[ {| f_more := true; f_cmd := false; f_payload := [9] |};
                                           {| f_more := false; f_cmd := false; f_payload := fill 300 5 |} ]].
+(* one frame of 70000 bytes: two records *)
+Definition ex_big : list (list frame) := [[ {| f_more := false; f_cmd := false; f_payload := fill 70000 9 |} ]].
 Definition ex_key : N := 23130.
-Definition ex_w0 : bytes := rec_wire N toy_seal ex_key 1 ex_b0.
+(* compact view of a receiver output (payload digests instead of payloads) *)
+Definition rsum (o : rout) : option (bool * bool * (N * N * bytes * bytes)) :=
+  match o with RFrame f => Some (f_more f, f_cmd f, digest (f_payload f)) | _ => None end.
+Definition ex_w0 : bytes := concat (chunk_wires N toy_seal ex_key 1 (all_chunks [ex_b0])).
 
-Lemma ex_replay_unforged : unforged N toy_seal ex_key (sealed 1 [ex_b0; ex_b1]) (ex_w0 ++ ex_w0).
+Lemma ex_replay_unforged : unforged N toy_seal ex_key (sealed 1 (all_chunks [ex_b0; ex_b1])) (ex_w0 ++ ex_w0).
 Proof.
   assert (forall c, framed (ex_w0 ++ ex_w0) c -> c = toy_seal ex_key 1 (enc_contiguous ex_b0)) as Hfr.
   { intros c H.
-    inversion H as [s A B | s c' A B C]; subst; [vm_compute; reflexivity|].
+    inversion H as [s A B | s c1 A B C]; subst; [vm_compute; reflexivity|].
     vm_compute in C.
-    inversion C as [s A' B' | s c'' A' B' C']; subst; [vm_compute; reflexivity|].
-    vm_compute in C'. inversion C' as [s A'' B'' | s c''' A'' B'' C'']; vm_compute in A''; lia. }
+    inversion C as [s A1 B1 | s c2 A1 B1 C1]; subst; [vm_compute; reflexivity|].
+    vm_compute in C1. inversion C1 as [s A2 B2 | s c3 A2 B2 C2]; vm_compute in A2; lia. }
   intros c Hc n p Hn Heq. rewrite (Hfr c Hc) in Heq.
   destruct (toy_seal_inj ex_key 1 (enc_contiguous ex_b0) n p) as [<- <-]; [unfold U64; lia | exact Hn | exact Heq |].
-  left. reflexivity.
+  vm_compute. left. reflexivity.
 Qed.
 
 (* ---------- the statements as exported to Props/C18.v: the AEAD laws bundled as one premise ---------- *)
@@ -933,16 +1047,13 @@ Let h3 := proj2 (proj2 ideal).
 Lemma x_stepper_ok m : stepper_ok (sstep key open m) (smu key) 0.
 Proof. eapply sec_ok; eauto. Qed.
 Definition x_chunk_independent := recv_chunk_independent key seal open h1 h2 h3.
+Definition x_write_ok := write_ok key seal open h1 h2 h3.
 Definition x_send_all_ok := send_all_ok key seal open h1 h2 h3.
-Definition x_enc_roundtrip_small := enc_roundtrip_small key seal open h1 h2 h3.
-Definition x_noise_large_refused := noise_large_refused key seal open h1 h2 h3.
-Definition x_curve_any_size_accepted := curve_any_size_accepted key seal open h1 h2 h3.
-Definition x_wrapped_record_undecodable := wrapped_record_undecodable key seal open h1 h2 h3.
-Definition x_enc_roundtrip_any_size_refuted := enc_roundtrip_any_size_refuted key seal open h1 h2 h3.
+Definition x_enc_roundtrip_any_size := enc_roundtrip_any_size key seal open h1 h2 h3.
 Definition x_tamper_prefix_safety := tamper_prefix_safety key seal open h1 h2 h3.
 Definition x_tamper_detected := tamper_detected key seal open h1 h2 h3.
 Definition x_tamper_messages := tamper_messages key seal open h1 h2 h3.
-Definition x_no_cleartext := no_cleartext key seal.
+Definition x_no_cleartext := no_cleartext key seal open h1 h2.
 Definition x_no_cleartext_noninterference := no_cleartext_noninterference key seal h3.
 Definition x_heartbeat_swallowed := heartbeat_swallowed key seal open h1 h2 h3.
 Definition x_pong_swallowed := pong_swallowed key seal open h1 h2 h3.
